@@ -43,12 +43,25 @@ def run_history(job):
     warnings.simplefilter("ignore")
     from numbers_parser import RGB, Border, Document
 
+    multi = not isinstance(source, str) and len(source) == 3
+    by = None          # a bystander table of the same document: nothing done to table (si, ti) may show on it
+
     def fresh():
         if isinstance(source, str):
             return Document(source)
-        return Document(num_rows=source[0], num_cols=source[1])
+        d = Document(num_rows=source[0], num_cols=source[1])
+        if multi:
+            # tables made through the API next to the first one: on the same sheet and on a sheet of their own
+            d.sheets[0].add_table("Second", num_rows=source[0], num_cols=source[1])
+            d.add_sheet("Other", "Third", source[0], source[1])
+        return d
+    if multi:
+        by = [(0, 0), (0, 1), (1, 0)][(source[2] + 1) % 3]
+        si, ti = [(0, 0), (0, 1), (1, 0)][source[2] % 3]
     trace = {"init": observe(fresh(), si, ti), "ev": [], "meta": {"source": os.path.basename(source) if isinstance(source, str) else list(source),
                                                                  "table": [si, ti], "idx": idx}}
+    if by:
+        trace["by"] = {"init": observe(fresh(), *by), "ev": [], "meta": {"source": list(source), "table": list(by), "idx": idx, "bystander_of": [si, ti]}}
     doc = fresh()
     path = os.path.join(scratch, "geo-%d-%d.numbers" % (os.getpid(), idx))
     for op in ops:
@@ -107,7 +120,10 @@ def run_history(job):
                 try:
                     doc.save(path)
                     e["post"] = observe(doc, si, ti)
-                    e["re"] = observe(Document(path), si, ti)
+                    reo = Document(path)
+                    e["re"] = observe(reo, si, ti)
+                    if by:
+                        trace["by"]["ev"].append({"op": "save", "exc": "", "post": observe(doc, *by), "re": observe(reo, *by)})
                 except Exception as ex:  # noqa: BLE001
                     e["exc"] = "%s:%s" % (type(ex).__name__, str(ex)[:80])
                     e["post"] = BAD
@@ -123,6 +139,12 @@ def run_history(job):
             trace["meta"].setdefault("skipped", []).append("%s %s: %s" % (k, op.get("k", ""), type(ex).__name__))
             break
         trace["ev"].append(e)
+        if by and k in ("set", "border", "query"):
+            # for the bystander every call on the other table is a call that changes nothing
+            if k == "set" and op["k"] == "sname" and by[0] == si:
+                trace["by"]["ev"].append(dict(e))          # the sheet's name is the one thing the two tables share
+            else:
+                trace["by"]["ev"].append({"op": "query", "k": "other"})
     for f in glob.glob(path):
         os.remove(f)
     return trace
@@ -262,7 +284,12 @@ def run(ctx):
             k += 1
     ctx.extra["histories"] = {"from_mechanism_spec": n_mech, "mechanism_states_with_hist": nstates, "total": len(jobs)}
     ctx.stage("record")
+    # documents with three tables (one added to the sheet, one on an added sheet): the history runs on one of them, a second one is watched
+    for i in range(30 if q else 400):
+        nr, nc = rng.choice([(4, 3), (6, 5)])
+        jobs.append((20000 + i, (nr, nc, i), 0, 0, random_ops(rng, nr, nc, rng.random() < 0.4, rng.randint(1, 2)), ctx.scratch))
     traces = fixtures.pmap(run_history, jobs, ctx.workers, chunksize=4)
+    traces += [t.pop("by") for t in traces if "by" in t]
     ctx.evaluations += len(traces)
     for t, j in zip(traces, jobs):
         ctx.distinct.add(json.dumps([t["meta"]["source"], j[4]], sort_keys=True, default=str))
